@@ -333,6 +333,8 @@ func c10ExecCase(line string) string {
 		return c10ExecObj(f)
 	case "H":
 		return c10ExecHist(f)
+	case "N":
+		return c10ExecFresh(f)
 	}
 	return "bad-case"
 }
